@@ -1038,7 +1038,7 @@ fn fam_directed<F: FnMut(&'static str, &[u8])>(c: &CorpusCfg, f: &mut F) {
         f("directed", &b);
     }
     // very many tiny options (more than any size constant of the crate), with various tails
-    let counts: &[usize] = if c.level == 0 { &[1281] } else { &[1279, 1280, 1281, 1282, 2000, 4096, 63999, 64000, 64001, 65535] };
+    let counts: &[usize] = if c.level == 0 { &[1281] } else { &[1279, 1280, 1281, 1282, 2000, 4096, 63999, 64000, 64001, 65535, 65536, 65537, 70001, 131072] };
     for &n in counts {
         for (hdr, first) in [(0x00u8, 0x00u8), (0x10, 0x10), (0x01, 0xd1)] {
             // n options: delta 0 / delta 1 (numbers 1..n) / one-byte values
